@@ -58,6 +58,8 @@ def run(ctx):
                 type(ex).__name__), {'family': fam, 'traceback': traceback.format_exc()[-1500:]})
         done.append(fam)
     ctx.extra['families'] = done
+    from qv import optmode
+    optmode.probe(ctx, 'C07')  # interpreter mode as an input: the same codes built by a child `python -O` (qv/optmode.py)
     return ctx.finish(RULE, search=search)
 
 
